@@ -388,8 +388,8 @@ func MessagePaths(f *ir.File, types []string) []string {
 	}
 	for _, o := range Occurrences(f, types) {
 		if o.FullKey != "" && o.Field.Kind == ir.KMessage && !o.Field.Embed && o.Field.CustomType == "" {
-			if sub := f.Msg(o.Field.Type); sub != nil && len(sub.Fields) > 0 {
-				out = append(out, o.FullKey)
+			if sub := f.Msg(o.Field.Type); sub != nil {
+				out = append(out, o.FullKey) // also messages without fields (placeholder + injected attributes)
 			}
 		}
 	}
